@@ -289,17 +289,26 @@ pub trait Check: Sync + Send {
     }
     /// Re-runs one recorded case; returns the violations it shows (empty = holds).
     fn replay(&self, replay: &Value, acc: &mut Acc);
-    /// a worker crash while running an item is a verdict (C14) rather than a machinery error
+    /// ANY death of a worker while running an item is a verdict (C14: also an allocation
+    /// failure under the address-space cap) rather than a machinery error.  Independently
+    /// of this, a worker that dies of SIGABRT/SEGV/ILL/BUS/FPE while an item is marked as
+    /// in flight is always a verdict: code under test aborted the process (e.g. a panic
+    /// while unwinding from a panic).
     fn crash_is_violation(&self) -> bool {
         false
+    }
+    /// workers announce every item before running it, so that a crash can be attributed;
+    /// off by default for checks with very many very cheap in-process items
+    fn mark_items(&self, tier: Tier) -> bool {
+        self.crash_is_violation() || self.chunk(tier) < 1000
     }
     /// per-worker address-space cap in bytes (C14)
     fn rlimit_as(&self) -> Option<u64> {
         None
     }
     /// names the input class of an item whose worker died (key suffix) and describes it
-    fn describe_item(&self, _idx: u64, _tier: Tier) -> (String, Value) {
-        (String::new(), json!(null))
+    fn describe_item(&self, idx: u64, _tier: Tier) -> (String, Value) {
+        ("item".to_string(), json!({"item": idx}))
     }
     /// extra key/values for the coverage object
     fn coverage_extra(&self, _tier: Tier, _acc: &Acc) -> Value {
@@ -308,15 +317,15 @@ pub trait Check: Sync + Send {
     /// wall-clock budget of the tier in seconds (the coordinator stops handing out work)
     fn wall_budget(&self, tier: Tier) -> u64 {
         match tier {
-            Tier::Quick => 45,
-            Tier::Thorough => 540,
+            Tier::Quick => 120,
+            Tier::Thorough => 1800,
         }
     }
 }
 
 pub const STD_ASSUMPTIONS: &[&str] = &[
     "bounded: the claim covers exactly the enumerated alphabet and deviation bound stated in coverage.rule",
-    "sequentially consistent interleavings only; no spurious condvar wake-ups; mutex release is not a preemption point; Arc clone/drop are not scheduling points (DESIGN.md 2, 3.5)",
+    "sequentially consistent interleavings only; spurious condvar wake-ups only where coverage.rule says so; mutex release is not a preemption point; Arc clone/drop are not scheduling points (DESIGN.md 2, 3.5)",
     "the in-memory network (vrt/net.rs) is a model of kernel stream sockets; it is bound to Linux TCP/UNIX sockets by the fixed conformance replay (bin/check conformance), not proved",
     "std's own primitives are trusted; vrt gives them their documented contracts (FIFO mpsc, any-waiter notify_one, monotone clock)",
     "TLS features are not built",
@@ -374,7 +383,7 @@ pub fn worker_loop(check: &dyn Check, tier: Tier, core: usize) {
         let mut acc = Acc::default();
         let mut done_upto = b;
         for idx in a..b {
-            if check.crash_is_violation() {
+            if check.mark_items(tier) {
                 let mut o = stdout.lock();
                 let _ = writeln!(o, "#begin {}", idx);
                 let _ = o.flush();
@@ -452,7 +461,7 @@ struct WorkerProc {
 enum RangeResult {
     /// (result, worker wants to be recycled, first item NOT done)
     Done(Acc, bool, u64),
-    Died { current: Option<u64>, status: String },
+    Died { current: Option<u64>, status: String, abort_like: bool },
 }
 
 impl WorkerProc {
@@ -525,11 +534,16 @@ impl WorkerProc {
                 }
             }
         }
-        let status = match self.child.wait() {
-            Ok(s) => format!("{:?}", s),
-            Err(e) => format!("wait failed: {}", e),
+        let (status, abort_like) = match self.child.wait() {
+            Ok(s) => {
+                use std::os::unix::process::ExitStatusExt;
+                // SIGILL 4, SIGABRT 6, SIGBUS 7, SIGFPE 8, SIGSEGV 11 (the watchdog and the
+                // kernel's OOM killer use SIGKILL: not a verdict)
+                (format!("{:?}", s), matches!(s.signal(), Some(4) | Some(6) | Some(7) | Some(8) | Some(11)))
+            }
+            Err(e) => (format!("wait failed: {}", e), false),
         };
-        RangeResult::Died { current: *current, status }
+        RangeResult::Died { current: *current, status, abort_like }
     }
 
     fn end(mut self) {
@@ -602,12 +616,12 @@ pub fn coordinate(check: &dyn Check, tier: Tier) -> Outcome {
                             wp = WorkerProc::spawn(&exe, &id, tier, w);
                         }
                     }
-                    RangeResult::Died { current, status } => {
+                    RangeResult::Died { current, status, abort_like } => {
                         let what = format!(
                             "worker {} died ({}) while running items {}..{} (item in flight: {:?})",
                             w, status, a, b, current
                         );
-                        if crash_is_violation {
+                        if crash_is_violation || (abort_like && current.is_some()) {
                             let item = current.unwrap_or(a);
                             crashed.lock().unwrap().push((item, what));
                             done_items.fetch_add(item + 1 - a, Ordering::SeqCst);
